@@ -55,6 +55,7 @@ DECIDING = {
     "string_annotations": "string (forward-reference) annotations",
     "pep604_annotations": "PEP 604 spellings",
     "annotated_annotations": "annotations carrying typing.Annotated metadata (around the type, around the Optional, inside it)",
+    "calls_in_a_context_allocated_at_the_address_of_a_dead_one": "the same function called again in a new context that was allocated at the address of an earlier, dead one",
     "calls_waiting_in_a_starting_component": "injected coroutine functions called from a starting component before a sibling published their resources (must wait like get_resource does there)",
     "optional_missing_none": "optional parameter with nothing matching (must be None)",
     "missing_raises_before_body": "missing non-optional resource (ResourceNotFound before the body runs)",
@@ -344,6 +345,7 @@ async def scenario(case: dict[str, Any], out: dict[str, Any]) -> None:
 
         if current_context() is not ctx:
             bad("inject-harness", "harness: wrong current context")
+        used_context_ids.append(id(ctx))
         before: tuple[dict[str, Any], BaseException | None] | None = None
         late = [i for i in sig["inj"] if i.get("late")]
         if late and ("Late" + late[0]["type"]) not in ns:
@@ -446,6 +448,7 @@ async def scenario(case: dict[str, Any], out: dict[str, Any]) -> None:
                 bad("inject-ordinary-arg", f"*args arrived as {got.get('args')!r}, passed {extra_args!r}")
 
     site = case["site"]
+    used_context_ids: list[int] = []
 
     async def run_calls() -> None:
         await run_calls_inner()
@@ -498,6 +501,27 @@ async def scenario(case: dict[str, Any], out: dict[str, Any]) -> None:
         await deco_cm.__aexit__(None, None, None)
     else:
         await run_calls()
+    if deco_cm is None and used_context_ids:
+        # the contexts of the calls above are gone; a new, unrelated context that happens to be allocated at the address of one of
+        # them (CPython reuses freed blocks at once) is a context of its own: the call sees *its* resources
+        import gc
+
+        gc.collect()
+        spares: list[Any] = []
+        reborn = None
+        for _ in range(64):
+            cand = Context(None)
+            if id(cand) in used_context_ids:
+                reborn = cand
+                break
+            spares.append(cand)
+        del spares
+        if reborn is not None:
+            inc("calls_in_a_context_allocated_at_the_address_of_a_dead_one")
+            async with reborn:
+                setup(reborn, False)
+                await call_and_compare(reborn)
+        del reborn
     if sig["is_async"] and deco_cm is None and ordered_inj and ordered_inj[0]["state"] == "async_factory":
         # the caller gives up while the first injected resource is still being generated: exactly as with an explicit
         # `await get_resource(...)` in its place, the cancellation takes effect there and the function body never runs
